@@ -20,6 +20,13 @@ def scaleOf? (t : String) : Option Int :=
 
 def isMarker (t : String) : Bool := (scaleOf? t).isSome
 
+/-- split the scale marker (if any) off a token list: handlers that look at the first input tokens themselves
+use this and put the marker back in front of what they hand to a parser -/
+def splitMarker (ts : List String) : List String × List String :=
+  match ts with
+  | m :: rest => if isMarker m then ([m], rest) else ([], ts)
+  | [] => ([], [])
+
 def atEnd (ts : List String) : Bool :=
   match ts with
   | [] => true
